@@ -50,17 +50,12 @@ def systems(tier):
         ("explicit-hydrogen-caps", [({"elements": [T("[H]"), S("[$]", ["[$]CC[$]"], [], "[$]", g0(11.0)), T("[H]")], "mixture": None}, "50")], None),
         ("explicit-hydrogen-two", [({"elements": [T("[H]"), S("[>]", ["[<]CO[>]"], [], "[<]", g0(40.0)), T("[H]")], "mixture": None}, "50%"), (A, "57")], None),
     ]
-    # the accumulated mass hits the system mass exactly (float sum the library itself computes): stop, do not add one more
-    mC = R.token_ref("C").mass
-    acc = 0
-    for _ in range(3):
-        acc += mC
-    out.append(("exact-hit", [({"elements": [T("C")], "mixture": None}, repr(acc))], None))
-    mO = R.token_ref("OCC").mass
-    acc2 = 0
-    for x in (mO, mC, mO):
-        acc2 += x
-    out.append(("exact-hit-two", [(A, "50%"), ({"elements": [T("C")], "mixture": None}, repr(acc2 / 2))], None))
+    # the accumulated mass hits the system mass exactly: stop, do not add one more.  All atoms carry the isotope label 12C
+    # (mass exactly 12.0), so every accumulated mass is an integer-valued float under any order of summation.
+    X1 = {"elements": [T("[12CH4]")], "mixture": None}
+    X2 = {"elements": [T("[12CH3][12CH3]")], "mixture": None}
+    out.append(("exact-hit", [(X1, "36.0")], None))
+    out.append(("exact-hit-two", [(X2, "50%"), (X1, "30.0")], None))
     if tier == "thorough":
         out += [
             ("four-tokens", [(A, "10%"), (B, "20%"), (Sv, "30%"), ({"elements": [T("CCCCO")], "mixture": None}, "160")], None),
@@ -79,6 +74,18 @@ def heavy_mass(smiles):
     from rdkit.Chem import Descriptors
 
     return float(Descriptors.HeavyAtomMolWt(Chem.MolFromSmiles(smiles)))
+
+
+def member_form(smiles):
+    """canonical SMILES for the membership test; the hydrogen count written inside a bracket atom (isotope label or
+    charge) is not compared - the reference model does not carry it (same convention as the generation checks)"""
+    from rdkit import Chem
+
+    m = Chem.MolFromSmiles(smiles)
+    for a in m.GetAtoms():
+        if a.GetIsotope() or a.GetFormalCharge():
+            R.forget_bracket_hydrogens(a)
+    return Chem.MolToSmiles(m)
 
 
 def sys_text(comps):
@@ -118,7 +125,7 @@ def member_sets(comps):
         out = gm.run()
         if gm.err > 0 or gm.capped:
             raise HarnessError("component is not well posed")
-        sets.append({R.plain_smiles_of_labelled(c) for c in out})
+        sets.append({member_form(R.plain_smiles_of_labelled(c)) for c in out})
     return sets
 
 
@@ -271,7 +278,7 @@ def eval_case(kind, data):
         for k, (smi, w, full) in enumerate(seq):
             if not full:
                 viol(res, f"C13|partial-member|{name}", f"System({text!r}): molecule {k} ({smi}) is not fully generated", {"text": text, "script": script})
-            can = Chem.CanonSmiles(smi)
+            can = member_form(smi)
             owners = [i for i, s in enumerate(sets) if can in s]
             if len(owners) != 1:
                 viol(res, f"C13|not-a-member|{name}", f"System({text!r}): molecule {k} ({smi}) is an instance of {len(owners)} declared components", {"text": text, "script": script})
@@ -303,7 +310,7 @@ def eval_case(kind, data):
         if obs[0] == "exc":
             viol(res, f"C13|generate-raises|{name}", f"System({text!r}).generate() raises {obs[1]}", {"text": text, "script": rng.choices})
             continue
-        can = Chem.CanonSmiles(obs[1])
+        can = member_form(obs[1])
         owners = [i for i, s in enumerate(sets) if can in s]
         if not obs[2] or len(owners) != 1:
             viol(res, f"C13|generate-not-a-member|{name}", f"System({text!r}).generate() returns {obs[1]} (fully generated {obs[2]}, member of {len(owners)} components)", {"text": text, "script": rng.choices})
@@ -355,7 +362,7 @@ def eval_case(kind, data):
             if acc >= Smass - 1e-9:
                 bad = f"molecule {k} generated although the system mass was reached"
             acc += w
-            if not full or len([1 for st_ in sets if Chem.CanonSmiles(smi) in st_]) != 1:
+            if not full or len([1 for st_ in sets if member_form(smi) in st_]) != 1:
                 bad = f"molecule {k} ({smi}) is not a complete member"
         if acc < Smass - 1e-9:
             bad = f"iteration stops at accumulated mass {acc:.3f} < system mass {Smass:.3f}"
